@@ -72,6 +72,10 @@ pub fn vx_lock<'a, K, V>(m: &'a Arc<Mutex<CacheStore<K, V>>>) -> (r: &'a mut Cac
 // ---- types of /repo (shape-checked) ----
 #[derive(Debug, Clone, Copy, PartialEq, Eq, Structural)]
 pub enum EvictionPolicy { Lru, Lfu, Fifo }
+impl EvictionPolicy {
+    /// #[derive(Default)] with `#[default]` on Lru (frame check `lru_is_the_default_policy` reads the attribute off the source)
+    #[verifier::external_body] pub fn default() -> (r: Self) ensures r == EvictionPolicy::Lru { unimplemented!() }
+}
 pub struct CacheEntry<V> { pub value: V, pub inserted_at: Instant }
 #[verifier::reject_recursive_types(K)]
 #[verifier::reject_recursive_types(V)]
